@@ -740,9 +740,10 @@ package core
 // Ghost event: dresolved[fork] counts the disable bindings Fork.disabled has resolved.
 // A fork is reported "not disabled" only after every disable binding of its call has been
 // resolved (one that resolves to false, or is not ready, must not end the evaluation).
-//@ func core.TopNode.resolve property C03
+//@ func core.TopNode.resolve property C03 C01
 //@   trusted
 //@   modifies ghost(dresolved)
+//@   effect lastisbool 0 := (istype(result.1, ptr_syntax.BoolExp) ? 1 : 0)
 //@   ensures ghost(dresolved)[0] == old(ghost(dresolved)[0]) + 1
 
 //@ func core.Runtime.FreeMemBytes property C03
@@ -1223,3 +1224,12 @@ package core
 //@   loop 2 invariant 0 <= iter && ghost(jsonenc)[0] >= old(ghost(jsonenc)[0]) + iter
 //@   loop 3 invariant ghost(jsonenc)[0] >= old(ghost(jsonenc)[0])
 //@   loop 4 invariant 0 <= iter && ghost(jsonenc)[0] >= old(ghost(jsonenc)[0]) + iter
+
+// ---------------------------------------------------------------- C01 `value unless disabled`: null only when the control value is true
+// resolveDisabledExp evaluates the control value, then the value itself (two TopNode.resolve
+// events).  It answers "ready, null" WITHOUT evaluating the value only when the control is a
+// boolean literal or decoded from JSON as true (db): a control value of null or false never
+// turns the producer's outputs into null (the producer itself treats such a call as enabled).
+//@ func core.TopNode.resolveDisabledExp property C01
+//@   requires node != nil && binding != nil
+//@   ensures @onlywhentrue isnil(result.2) && result.0 && ghost(dresolved)[0] == old(ghost(dresolved)[0]) + 1 ==> ghost(lastisbool)[0] == 1 || db
